@@ -473,6 +473,8 @@ package core
 //@ ghost var gBlockThrew bool
 // gBlockRet: ... and the value it threw was BlockReturn (return from the enclosing function)
 //@ ghost var gBlockRet bool
+// gCalls: number of Thread.Call invocations (calls of Suneido code from Go: blocks, triggers)
+//@ ghost var gCalls int
 // (the effect of the underlying database transaction on the database is outside this model)
 //@ func (t ITran) Complete() (r)
 //@   assumed
@@ -503,9 +505,9 @@ package core
 //@ func (th *Thread) Call(fn, args) (r)
 //@   assumed
 //@   maypanic
-//@   modifies all, gBlockThrew, gBlockRet
-//@   ensures !gBlockThrew
-//@   on_panic gBlockThrew && (gBlockRet <==> panicvalue() == BlockReturn)
+//@   modifies all, gBlockThrew, gBlockRet, gCalls
+//@   ensures !gBlockThrew && gCalls == old(gCalls) + 1
+//@   on_panic gBlockThrew && (gBlockRet <==> panicvalue() == BlockReturn) && gCalls == old(gCalls) + 1
 //@ func ToBool(x) (r)
 //@   assumed
 //@   pure
@@ -514,5 +516,15 @@ package core
 //@   assumed
 //@   pure
 //@ func (d IDbms) Transaction(update) (r)
+//@   assumed
+//@   pure
+
+//@ property C44
+// WrapPanic never returns: it re-panics with a message that names the trigger
+//@ func WrapPanic(th, e, suffix)
+//@   assumed
+//@   maypanic
+//@   ensures false
+//@ func (g typeGlobal) FindName(th, name) (r)
 //@   assumed
 //@   pure
